@@ -82,16 +82,35 @@ def Case.model (c : Case) : Hmm :=
       | none => fun _ => 1
     hasEnd := c.fin.isSome }
 
-/-- value of a numerator over `d^e` as a float -/
-def ratio (num d e : Nat) : Float := Float.ofNat num / Float.ofNat (d ^ e)
+/-- natural logarithm of a positive natural number of any size (numbers beyond the `f64` range are scaled by a power of
+two first; 64 leading bits are more than the 53 a float keeps) -/
+def lnNat (n : Nat) : Float :=
+  let k := n.log2
+  if k < 1000 then Float.log (Float.ofNat n)
+  else Float.log (Float.ofNat (n >>> (k - 64))) + Float.ofNat (k - 64) * Float.log 2.0
+
+/-- value of a numerator over `d^e` as a float; long observation sequences make both numbers exceed the `f64` range
+(`10^700`), then the quotient is formed in log space -/
+def ratio (num d e : Nat) : Float :=
+  let den := d ^ e
+  if num.log2 < 1000 && den.log2 < 1000 then Float.ofNat num / Float.ofNat den
+  else if num = 0 then 0.0
+  else Float.exp (lnNat num - lnNat den)
 
 /-- does the reported log value `ln` stand for the exact weight `num / d^e` (relative tolerance `tol`)? -/
 def valueOk (ln : Float) (num d e : Nat) (tol : Float) : Bool :=
-  if num = 0 then isNegInf ln else relClose (Float.exp ln) (ratio num d e) tol
+  if num = 0 then isNegInf ln else
+  let le := lnNat num - lnNat (d ^ e)
+  -- weights near or below the smallest normal `f64` (long sequences): `exp` loses the relative precision the tolerance
+  -- speaks about, so the same relative tolerance is applied as an absolute one in log space
+  if le < -600.0 then (ln - le).abs ≤ tol + 1e-9
+  else relClose (Float.exp ln) (ratio num d e) tol
 
 /-- is the exact weight `w` maximal (`= vmax`) up to 1e-9 relative? -/
 def nearMax (w vmax : Nat) : Bool :=
-  w = vmax || (w ≤ vmax && Float.ofNat (vmax - w) ≤ 1e-9 * Float.ofNat vmax)
+  -- both numbers scaled by the same power of two when they exceed the `f64` range (otherwise `inf ≤ inf` would accept anything)
+  let sh := if vmax.log2 < 1000 then 0 else vmax.log2 - 64
+  w = vmax || (w ≤ vmax && Float.ofNat ((vmax - w) >>> sh) ≤ 1e-9 * Float.ofNat (vmax >>> sh))
 
 def parseObs (out : String) : Option (List Nat × Float × Float × Float) :=
   match out.splitOn " " with
@@ -147,6 +166,9 @@ def verdict (toks : List String) (out : String) : String :=
         ++ (if path ≠ vm.1 then " drift" else "")
         ++ (if jp ≠ vE.2 then " near-tie" else "")
         ++ (if c.d = 1 then " zero-one" else "")
+        ++ (if T ≥ 50 then " long" else "")
+        ++ (if T ≥ 50 && (c.trans.zipIdx.all fun (r, i) => r.zipIdx.all fun (k, j) => i = j || k * 5 ≤ c.d)
+              then " farapart" else "")
         ++ (if c.fin.isSome then
               -- what the algorithm returns when the end term is left out (the repaired defect)
               let p0 := (viterbi m.noEnd c.obs).1
